@@ -91,6 +91,19 @@ fn decode(tape: &[u32], tier: Tier) -> Case {
     if t.chance(1, 6) {
         case.pre = Some((t.usize(1, 7) as i32, t.bool()));
     }
+    // one case in eight: KL-divergence on predictions in (0, 1): once the prediction has passed the validation target
+    // the validation loss t ln(t / p) is negative and keeps falling (the contract is about the recorded numbers, whatever
+    // their sign)
+    if inputs == 1 && t.chance(1, 8) {
+        case.obj = ObjK::KL;
+        case.w0 = vec![t.usize(1, 4) as f32 * 0.25];
+        case.lr = [0.0625f32, 0.125, 0.03125][t.pick(3)];
+        let pts = |t: &mut Tape, ys: &[f32]| -> Vec<(Vec<f32>, f32)> { (0..t.usize(1, 3)).map(|_| (vec![[1.0f32, 0.5][t.pick(2)]], ys[t.pick(ys.len())])).collect() };
+        case.train = pts(&mut t, &[0.25, 0.5, 0.75]);
+        case.val = pts(&mut t, &[0.125, 0.25, 0.5]);
+        case.batch = t.usize(1, case.train.len() + 1);
+        case.with_val = true;
+    }
     case
 }
 
@@ -219,6 +232,9 @@ fn check(case: &Case, ev: &mut CaseEv) -> CheckResult {
             ev.class("early stop");
         }
         ev.class(format!("trajectory:{}", classify(&vl)));
+        if vl.iter().any(|v| *v < 0.0) {
+            ev.class("trajectory with negative losses");
+        }
         if vl.windows(2).any(|p| p[0] != p[1] && crate::fcmp::ulps32(p[0], p[1]) <= 2) {
             ev.class("trajectory with 1-2 ulp steps");
         }
@@ -262,7 +278,7 @@ impl Prop for C13 {
         Some(1)
     }
     fn rule(&self) -> String {
-        "tape-decoded training set-up whose validation-loss trajectory is exact: linear 1->1 (thorough also 2->1) model without bias, start weight, training slope, validation slope and offset on the 1/4 grid in [-4, 4], inputs in {+-1, 1/2, 2, 1/4}, objective MSE or AE, plain SGD with learning rate in {1/16 .. 2}, 1-3 training and validation points, batch 1..N+1, tolerance 1..6, epoch budget 1..14, validation data present in 5/6 of the cases, print frequency none (2/3) or 1, 2, 3, 100; one case in eight steers the validation loss by exactly one unit in the last place per epoch; in one case of six the network has already been through an earlier learn() call of 1-7 epochs (with or without validation data) and the contract is checked on the second call. Invariant over the returned history: one training-loss entry per epoch run, as many validation-loss and accuracy entries (none without validation data, and then all epochs run), never continues past the first epoch e > tolerance whose last `tolerance` validation losses are strictly increasing, stops early only if that holds at the last epoch, final weights and training losses equal those of a validation-free run of exactly that many epochs. Non-trivial: trajectory not monotone-falling, or an early stop. Distinct = (trajectory class, tolerance, budget, epochs run, loss bit patterns).".into()
+        "tape-decoded training set-up whose validation-loss trajectory is exact: linear 1->1 (thorough also 2->1) model without bias, start weight, training slope, validation slope and offset on the 1/4 grid in [-4, 4], inputs in {+-1, 1/2, 2, 1/4}, objective MSE or AE (one case in eight: KL-divergence on predictions in (0, 1), whose validation loss becomes negative), plain SGD with learning rate in {1/16 .. 2}, 1-3 training and validation points, batch 1..N+1, tolerance 1..6, epoch budget 1..14, validation data present in 5/6 of the cases, print frequency none (2/3) or 1, 2, 3, 100; one case in eight steers the validation loss by exactly one unit in the last place per epoch; in one case of six the network has already been through an earlier learn() call of 1-7 epochs (with or without validation data) and the contract is checked on the second call. Invariant over the returned history: one training-loss entry per epoch run, as many validation-loss and accuracy entries (none without validation data, and then all epochs run), never continues past the first epoch e > tolerance whose last `tolerance` validation losses are strictly increasing, stops early only if that holds at the last epoch, final weights and training losses equal those of a validation-free run of exactly that many epochs. Non-trivial: trajectory not monotone-falling, or an early stop. Distinct = (trajectory class, tolerance, budget, epochs run, loss bit patterns).".into()
     }
     fn assumptions(&self) -> Vec<String> {
         vec!["'strictly increased throughout the last `tolerance` recorded epochs' is read as: the last `tolerance` recorded validation losses form a strictly increasing sequence (tolerance - 1 comparisons)".into()]
